@@ -286,9 +286,9 @@ def apply_time_range_vevent(start, end, comp, tzify):
         return start < tzify(dtend.dt)
 
     duration = comp.get("DURATION")
-    if duration:
+    if duration and duration.dt > timedelta(0):
         return start < tzify(dtstart.dt) + duration.dt
-    if getattr(dtstart.dt, "time", None) is not None:
+    if duration or getattr(dtstart.dt, "time", None) is not None:
         return start <= tzify(dtstart.dt)
     else:
         return start < (tzify(dtstart.dt) + timedelta(1))
@@ -321,7 +321,7 @@ def apply_time_range_vtodo(start, end, comp, tzify):
             )
         elif due and not duration:
             return (start <= tzify(dtstart.dt) or start < tzify(due.dt)) and (
-                end > tzify(dtstart.dt) or end < tzify(due.dt)
+                end > tzify(dtstart.dt) or end >= tzify(due.dt)
             )
         else:
             return start <= tzify(dtstart.dt) and end > tzify(dtstart.dt)
@@ -339,7 +339,7 @@ def apply_time_range_vtodo(start, end, comp, tzify):
         else:
             return start <= tzify(completed.dt) and end >= tzify(completed.dt)
     elif created:
-        return end >= tzify(created.dt)
+        return end > tzify(created.dt)
     else:
         return True
 
